@@ -70,6 +70,13 @@ def run(ctx):
     part2 = os.path.join(d2, "c20redis.part")
     routerfam.partition_by_name(os.path.join(d2, "c20redis.ndjson"), part2)
     routerfam.validate(ctx, part2, only=["Inv_C04_", "Inv_C03_Header", "Inv_C03_Decodable", "Inv_C07_StoreOwnKey", "Unconsumable"], require_events=3000, timeout=3000)
+    # the codec's error paths: mutated wire images (length fields that lie, truncations, RDLENGTH off by one in
+    # every record type) decoded with the pool hook on - a buffer released twice there is two owners later
+    import wirefam
+    wdrv = vf.build_driver("wiredrv")
+    wt, wo = ctx.path("mal.ndjson"), ctx.path("mal-own.ndjson")
+    ctx.driver(wdrv, ["-out", wt, "-mal", 6000 if ctx.quick else 80000, "-own", wo])
+    wirefam.check_pool(ctx, wo, "mutated wire images")
     # the memory cache's interface: it keeps no reference to the key / value buffers of its callers
     cdrv = vf.build_driver("cachedrv")
     kt = ctx.path("keep.ndjson")
